@@ -51,6 +51,13 @@ Definition no_enomem (tr : list (event * result)) : bool :=
 Definition no_open_of (id : N) (evs : list event) : bool :=
   forallb (fun e => match e with EvOpen i => negb (i =? id) | _ => true end) evs.
 
+(* no transient trunk failure: a trunk that has failed stays down *)
+Definition no_recovery (evs : list event) : bool :=
+  forallb (fun e => match e with EvTrunkUp => false | _ => true end) evs.
+(* the frames of every Write that was attempted (successful or not), in the order of the attempts *)
+Definition attempted_frames (mp : N) (tr : list (event * result)) : list frame :=
+  flat_map (fun eo => match fst eo with EvWrite id buf _ => enc_frames_mp mp id buf | _ => [] end) tr.
+
 Fixpoint only_closes (evs : list event) : bool :=
   match evs with [] => true | EvClose :: r => only_closes r | _ :: _ => false end.
 
